@@ -446,11 +446,11 @@ def job_token_inductive(ctx, jr, N, C, part='C01'):
         try: e.run('core', fname, [P(0, 'meta'), bufv, start] + flags, st)
         except _Captured: pass
         if not cap: raise NotRecognised('the character loop of parse_next_value was not reached')
-        for n_ in ('index', 'iter', 'argument', 'in_argument', 'using_quotes', 'in_control', 'found_end', 'found_variable_prefix', 'end_index'):
+        for n_ in ('index', 'argument', 'in_argument', 'using_quotes', 'in_control', 'found_end', 'found_variable_prefix', 'end_index'):
             if n_ not in cap['fn'].debug: raise NotRecognised('local %r not found in the debug table of parse_next_value' % n_)
         e.stack.clear(); e.loop_entry_hooks.clear()
         from mirsym import induct
-        induct.LoopFrame(e, cap['fn'], cap['info'], cap['L'], cap['st'], cap['fid']).require(['index', 'iter', 'argument', 'in_argument', 'using_quotes', 'in_control', 'found_variable_prefix'])
+        induct.LoopFrame(e, cap['fn'], cap['info'], cap['L'], cap['st'], cap['fid']).require(['index', 'argument', 'in_argument', 'using_quotes', 'in_control', 'found_variable_prefix'] + (['iter'] if 'iter' in cap['fn'].debug else []))
         cap['line'] = line_no
         return e, buf, bufv, start, cap
 
@@ -458,8 +458,9 @@ def job_token_inductive(ctx, jr, N, C, part='C01'):
         fn, fid = cap['fn'], cap['fid']; d = fn.debug
         st = cap['st'].copy()
         st.m[(fid, d['index'])] = p
-        it0 = st.m[(fid, d['iter'])]
-        st.m[(fid, d['iter'])] = T([p, buf.len], it0.ty)
+        if 'iter' in d:       # `for _i in index..end_index`; a `while index < end_index` loop has no iterator local
+            it0 = st.m[(fid, d['iter'])]
+            st.m[(fid, d['iter'])] = T([p, buf.len], it0.ty)
         st.m[(fid, d['argument'])] = A
         st.m[(fid, d['in_argument'])] = phase != 'PRE'
         st.m[(fid, d['using_quotes'])] = quoted if phase != 'PRE' else False
@@ -471,11 +472,11 @@ def job_token_inductive(ctx, jr, N, C, part='C01'):
     def read_state(cap, st):
         fn, fid = cap['fn'], cap['fid']; d = fn.debug
         g = lambda n: st.m.get((fid, d[n]))
-        return dict(index=g('index'), iter=g('iter'), argument=g('argument'), in_argument=g('in_argument'), using_quotes=g('using_quotes'),
+        return dict(index=g('index'), iter=g('iter') if 'iter' in d else None, argument=g('argument'), in_argument=g('in_argument'), using_quotes=g('using_quotes'),
                     in_control=g('in_control'), found_end=g('found_end'), fvp=g('found_variable_prefix'))
 
     def is_phase(s_, phase, quoted, A2, p2):
-        cs = [zeq(s_['index'], p2), zeq(s_['iter'].f[0], p2), zeq(s_['in_argument'], phase != 'PRE'), zeq(s_['in_control'], phase in ('CTL', 'VAR')),
+        cs = [zeq(s_['index'], p2), zeq(s_['iter'].f[0], p2) if s_['iter'] is not None else True, zeq(s_['in_argument'], phase != 'PRE'), zeq(s_['in_control'], phase in ('CTL', 'VAR')),
               zeq(s_['found_end'], False), zeq(s_['fvp'], phase == 'VAR'), str_eq(s_['argument'], A2)]
         if phase != 'PRE': cs.append(zeq(s_['using_quotes'], quoted))
         return zand(*cs)
